@@ -950,6 +950,7 @@ func runC16(c *Ctx, tier string) {
 	runSeekRangeMerge(c, "C16-R1")
 	runFirstKeyByPosition(c, "C16-B3")
 	runSeekLookupScansAll(c, "C16-L1")
+	runConstCompareRefusesNull(c, "C16-N2")
 	checkNullsMax(c, "C16-N1")
 }
 
